@@ -49,9 +49,9 @@ def _gen_seq(rng, n):
         elif r < 0.68:
             ops.append(["dget", rng.choice(["ka", "kb", "kc", "never"])])
         elif r < 0.82:
-            ops.append(["call", rng.choice(["idf", "pairf", "sizef"]), [rng.randrange(len(VALUES)) for _ in range(2)]])
+            ops.append(["call", rng.choice(["idf", "pairf", "sizef", "nilf", "tripf"]), [rng.randrange(len(VALUES)) for _ in range(3)]])
         elif r < 0.92:
-            ops.append(["proxy", rng.choice(["idf", "pairf", "sizef"]), [rng.randrange(len(VALUES)) for _ in range(2)]])
+            ops.append(["proxy", rng.choice(["idf", "pairf", "sizef", "nilf", "tripf"]), [rng.randrange(len(VALUES)) for _ in range(3)]])
         else:
             ops.append(["symget", rng.choice(["ka", "kb"])])
     return ops
@@ -108,6 +108,9 @@ def init_shard(tier, seed):
         k_("idf::{x}")
         k_("pairf::{x,,y}")
         k_("sizef::{#x}")
+        k_("cnt::0")
+        k_("nilf::{cnt::cnt+1;cnt}")            # a nilad with a visible side effect
+        k_("tripf::{x,,y,,z}")
     import time
     ok = None
     for _ in range(100):
@@ -233,7 +236,7 @@ def _run_seq(ctx, case, res):
                 cnt["undefined_transported"] = cnt.get("undefined_transported", 0) + 1
         elif t in ("call", "proxy"):
             fn = op[1]
-            nargs = 2 if fn == "pairf" else 1
+            nargs = {"pairf": 2, "nilf": 0, "tripf": 3}.get(fn, 1)
             args = [VALUES[i] for i in op[2][:nargs]]
             if any(a[0] == "D" for a in args) and fn == "sizef":
                 pass
